@@ -143,7 +143,8 @@ inline ChildOutcome runChild(const std::function<void(int)>& body, double cpuSec
 // ------------------------------------------------------------------------------------------------------------
 struct CrashId
 {
-  std::string kind; // asan-<bug> | ubsan-<what> | assert | terminate-<exception> | signal-<n> | exit-<n>
+  std::string kind; // memory-error | ubsan-<what> | assert | terminate-<exception> | asan-stack-overflow | signal-<n> | exit-<n>
+  std::string rawKind; // the sanitizer's own name (asan-heap-buffer-overflow, ubsan-reference-binding-to-null-..., ...)
   std::string func; // first /repo frame (function, no arguments) or "?"
   std::string loader; // innermost reader frame below it (X::_deserialize, createFromNF, readGridFromFile, ...) or ""
   std::string excerpt;
@@ -187,33 +188,78 @@ inline bool loaderFrame(const std::string& fn)
   return false;
 }
 
-inline std::string crashKind(const std::string& err, int status)
+// Position and raw kind of the FATAL message of a report. UBSan's signed-integer-overflow and float-cast-overflow are
+// compiled as recoverable (advisory, DESIGN 5.5): their lines (and stacks) may precede the fatal message and are skipped.
+struct Fatal { std::string kind; size_t pos = std::string::npos; };
+
+inline Fatal findFatal(const std::string& err, int status)
 {
-  std::smatch m;
-  static const std::regex reAsan("ERROR: AddressSanitizer: ([A-Za-z0-9_-]+)");
-  static const std::regex reUb("runtime error: ([^\n]+)");
-  static const std::regex reTerm("terminate called after throwing an instance of '([^']+)'");
-  if (std::regex_search(err, m, reUb))
+  Fatal f;
+  size_t best = std::string::npos;
+  // fatal UBSan line
+  size_t p = 0;
+  while ((p = err.find("runtime error: ", p)) != std::string::npos)
   {
-    // UBSan prints first, then aborts (ASan may add a second report for the SIGABRT): the UBSan line is the cause
-    std::string w = m[1];
-    w             = std::regex_replace(w, std::regex("0x[0-9a-f]+"), "P");
+    size_t e         = err.find('\n', p);
+    std::string what = err.substr(p + 15, (e == std::string::npos ? err.size() : e) - p - 15);
+    p += 15;
+    if (what.find("signed integer overflow") != std::string::npos || what.find("outside the range of representable values") != std::string::npos)
+      continue;
+    std::string w = std::regex_replace(what, std::regex("0x[0-9a-f]+"), "P");
     w             = std::regex_replace(w, std::regex("-?[0-9]+(\\.[0-9]+)?(e[+-]?[0-9]+)?"), "N");
     w             = std::regex_replace(w, std::regex("[^A-Za-z]+"), "-");
     while (!w.empty() && w.back() == '-') w.pop_back();
-    return "ubsan-" + w.substr(0, 60);
+    f.kind = "ubsan-" + w.substr(0, 60);
+    best   = err.rfind('\n', p) == std::string::npos ? 0 : err.rfind('\n', p);
+    break;
   }
-  if (err.find("Assertion `") != std::string::npos || err.find("Assertion '") != std::string::npos) return "assert";
-  if (std::regex_search(err, m, reTerm)) return "terminate-" + std::string(m[1]);
+  auto consider = [&](size_t q, const std::string& k) {
+    if (q != std::string::npos && q < best) { best = q; f.kind = k; }
+  };
+  size_t qa = err.find("Assertion `");
+  if (qa == std::string::npos) qa = err.find("Assertion '");
+  consider(qa, "assert");
+  std::smatch m;
+  static const std::regex reTerm("terminate called after throwing an instance of '([^']+)'");
+  if (std::regex_search(err, m, reTerm)) consider((size_t)m.position(0), "terminate-" + std::string(m[1]));
+  static const std::regex reAsan("ERROR: AddressSanitizer: ([A-Za-z0-9_-]+)");
   if (std::regex_search(err, m, reAsan))
   {
     std::string k = m[1];
-    if (k == "ABRT") return "abort";
-    return "asan-" + k;
+    // the ABRT report that follows an assertion / UBSan abort only carries the stack of the abort
+    if (k != "ABRT") consider((size_t)m.position(0), "asan-" + k);
+    else if (best == std::string::npos) consider((size_t)m.position(0), "abort");
   }
-  if (WIFSIGNALED(status)) return "signal-" + std::to_string(WTERMSIG(status));
-  if (WIFEXITED(status)) return "exit-" + std::to_string(WEXITSTATUS(status));
-  return "died";
+  if (best == std::string::npos)
+  {
+    if (WIFSIGNALED(status)) f.kind = "signal-" + std::to_string(WTERMSIG(status));
+    else if (WIFEXITED(status)) f.kind = "exit-" + std::to_string(WEXITSTATUS(status));
+    else f.kind = "died";
+  }
+  f.pos = best;
+  return f;
+}
+
+// One defect shows up under several sanitizer names depending on where the bad index / pointer happens to land (null
+// binding for an empty vector, offset overflow for a negative index, heap-buffer-overflow, use-after-free or SEGV for a
+// positive one): for the KEY they are one class, the raw name stays in the detail.
+inline std::string normalizeKind(const std::string& k)
+{
+  for (const char* m : {"asan-heap-buffer-overflow", "asan-container-overflow", "asan-heap-use-after-free", "asan-SEGV",
+                        "asan-stack-buffer-overflow", "asan-global-buffer-overflow", "asan-unknown-crash", "asan-use-after-poison",
+                        "asan-stack-buffer-underflow", "asan-dynamic-stack-buffer-overflow", "asan-stack-use-after-return",
+                        "asan-stack-use-after-scope", "asan-negative-size-param", "asan-bad-free", "asan-attempting", "asan-double-free",
+                        "asan-memcpy-param-overlap", "asan-strcpy-param-overlap"})
+    if (k.compare(0, strlen(m), m) == 0) return "memory-error";
+  for (const char* m : {"ubsan-reference-binding-to-null", "ubsan-load-of-null", "ubsan-store-to-null", "ubsan-member-call-on-null",
+                        "ubsan-member-access-within-null", "ubsan-addition-of-unsigned-offset", "ubsan-subtraction-of-unsigned-offset",
+                        "ubsan-index-N-out-of-bounds", "ubsan-applying-non-zero-offset", "ubsan-applying-zero-offset",
+                        "ubsan-load-of-misaligned", "ubsan-store-to-misaligned", "ubsan-reference-binding-to-misaligned",
+                        "ubsan-load-of-address", "ubsan-member-call-on-address", "ubsan-member-access-within-address",
+                        "ubsan-pointer-index-expression", "ubsan-null-pointer-passed", "ubsan-call-to-function"})
+    if (k.compare(0, strlen(m), m) == 0) return "memory-error";
+  if (k == "signal-11" || k == "signal-7") return "memory-error";
+  return k;
 }
 
 // frames of the FIRST stack of the report: either symbolized ("in fn file:line") or raw module offsets
@@ -319,9 +365,12 @@ inline CrashId crashIdentity(const ChildOutcome& o, const std::string& exe)
     }
   }
   CrashId id;
-  id.kind = crashKind(o.errText, o.status);
-  id.func = "?";
-  std::vector<RawFrame> fr = firstStack(o.errText);
+  Fatal fatal = findFatal(o.errText, o.status);
+  id.rawKind  = fatal.kind;
+  id.kind     = normalizeKind(fatal.kind);
+  id.func     = "?";
+  // the stack that follows the fatal message (an assertion's stack is the one of the ABRT report printed after it)
+  std::vector<RawFrame> fr = firstStack(fatal.pos == std::string::npos ? o.errText : o.errText.substr(fatal.pos));
   bool raw = false;
   for (auto& f : fr) raw = raw || !f.off.empty();
   if (!raw)
@@ -374,15 +423,10 @@ inline CrashId crashIdentity(const ChildOutcome& o, const std::string& exe)
     }
   }
   // excerpt: from the first interesting line, a dozen lines
-  size_t start = std::string::npos;
-  for (const char* pat : {"runtime error", "ERROR:", "Assertion", "terminate called"})
-  {
-    size_t p = o.errText.find(pat);
-    if (p != std::string::npos && p < start) start = p;
-  }
+  size_t start = fatal.pos;
   if (start == std::string::npos) start = o.errText.size() > 600 ? o.errText.size() - 600 : 0;
   else start = o.errText.rfind('\n', start) == std::string::npos ? 0 : o.errText.rfind('\n', start) + 1;
-  id.excerpt = o.errText.substr(start, 900);
+  id.excerpt = "[" + id.rawKind + "] " + o.errText.substr(start, 900);
   return id;
 }
 
